@@ -1,6 +1,7 @@
 --------------------------- MODULE MC_ChunkCache ---------------------------
 EXTENDS ChunkCache
 MCRanges == {<<0, 1>>, <<0, 2>>, <<1, 2>>}
+MCRanges2 == {<<0, 1>>, <<0, 2>>}
 MCRanges1 == {<<0, 1>>}
 MCRanges3 == {<<0, 1>>, <<0, 2>>, <<1, 2>>, <<0, 3>>, <<2, 3>>}
 MCILen(i) == (i[2][2] - i[2][1]) + 1
